@@ -1,6 +1,6 @@
 (* Properties_C05_pipeline.v — statements only.  C05 at the level of dec_process_msg (CredModel). *)
 From Coq Require Import List NArith ZArith Bool.
-From MV Require Import Bytes CredModel CredProofs RetryModel CredHistory.
+From MV Require Import Bytes CredModel CredProofs RetryModel RetryProofs CredHistory.
 From MV.gen Require Import GenCred.
 Import ListNotations.
 Local Open Scope N_scope.
@@ -11,27 +11,40 @@ Variable sha1 : bytes -> bytes.
 Variable blk_dec : N -> bytes -> bytes -> bytes.
 Variable zdecomp : N -> bytes -> N -> option bytes.
 
+(* a decode reads the clock twice: t1 when the request is received (time-window check, decode time of the reply) and
+   t2 at its replay step, after replay_insert (dec_process2; the atomic dec_process is the case t2 = t1) *)
 (* failed decodes (invalid, unauthorized, expired, rewound — everything the cache-independent part refuses)
    never consume a credential: the cache is returned exactly as it was *)
-Theorem C05_failed_decode_does_not_consume : forall cf mem rs m pu pg now r0,
-  dec_pre hmac sha1 blk_dec zdecomp cf mem m pu pg now = inl r0 ->
-  dec_process hmac sha1 blk_dec zdecomp cf mem rs m pu pg now = (r0, rs, None).
+Theorem C05_failed_decode_does_not_consume : forall cf mem rs m pu pg t1 t2 r0,
+  dec_pre hmac sha1 blk_dec zdecomp cf mem m pu pg t1 = inl r0 ->
+  dec_process2 hmac sha1 blk_dec zdecomp cf mem rs m pu pg t1 t2 = (r0, rs, None).
 Proof. exact (failed_decode_does_not_consume hmac sha1 blk_dec zdecomp). Qed.
 
-(* the first accepted presentation of a key succeeds and records exactly that key, whatever other keys the cache
-   holds: equal expiry, same MAC with another expiry, colliding bucket — any k' <> k is irrelevant *)
-Theorem C05_first_presentation_succeeds : forall cf mem rs m pu pg now m' k,
-  dec_pre hmac sha1 blk_dec zdecomp cf mem m pu pg now = inr (m', k) -> ~ In k rs ->
-  dec_process hmac sha1 blk_dec zdecomp cf mem rs m pu pg now = (m', k :: rs, Some k).
+(* the first accepted presentation of a key that has not expired by its replay step succeeds and records exactly that
+   key, whatever other keys the cache holds: equal expiry, same MAC with another expiry, colliding bucket — any
+   k' <> k is irrelevant *)
+Theorem C05_first_presentation_succeeds : forall cf mem rs m pu pg t1 t2 m' k,
+  dec_pre hmac sha1 blk_dec zdecomp cf mem m pu pg t1 = inr (m', k) -> ~ In k rs -> t2 <= snd k ->
+  dec_process2 hmac sha1 blk_dec zdecomp cf mem rs m pu pg t1 t2 = (m', k :: rs, Some k).
 Proof. exact (first_presentation_succeeds hmac sha1 blk_dec zdecomp). Qed.
 
-(* what any decode does to the cache: nothing, or it adds its own key *)
-Theorem C05_decode_cache_effect : forall cf mem rs m pu pg now,
-  let '(r, rs', _) := dec_process hmac sha1 blk_dec zdecomp cf mem rs m pu pg now in
-  rs' = rs \/ (exists m' k, dec_pre hmac sha1 blk_dec zdecomp cf mem m pu pg now = inr (m', k) /\ r_mem k rs = false
-                            /\ rs' = k :: rs /\ r = m').
+(* what any decode does to the cache: nothing, or it adds its own key - with success when the key has not expired by
+   the replay step, with 'expired' (and the record left for the purge) when it has *)
+Theorem C05_decode_cache_effect : forall cf mem rs m pu pg t1 t2,
+  let '(r, rs', _) := dec_process2 hmac sha1 blk_dec zdecomp cf mem rs m pu pg t1 t2 in
+  rs' = rs \/ (exists m' k, dec_pre hmac sha1 blk_dec zdecomp cf mem m pu pg t1 = inr (m', k) /\ r_mem k rs = false
+                            /\ rs' = k :: rs /\
+                            (r = m' /\ t2 <= snd k \/ r = dec_finish (set_err m' e_cred_expired None) /\ snd k < t2)).
 Proof. exact (decode_cache_effect hmac sha1 blk_dec zdecomp). Qed.
+
+(* the one-clock dec_process of the other C05 / C01 / C09 / C13 theorems is dec_process2 when the clock has not advanced
+   by the replay step *)
+Theorem C05_atomic_decode_is_special_case : forall cf mem rs m pu pg now,
+  dec_process hmac sha1 blk_dec zdecomp cf mem rs m pu pg now =
+  dec_process2 hmac sha1 blk_dec zdecomp cf mem rs m pu pg now (u32 now).
+Proof. exact (dec_process_atomic hmac sha1 blk_dec zdecomp). Qed.
 End C05p.
 Print Assumptions C05_failed_decode_does_not_consume.
 Print Assumptions C05_first_presentation_succeeds.
 Print Assumptions C05_decode_cache_effect.
+Print Assumptions C05_atomic_decode_is_special_case.
